@@ -65,6 +65,11 @@ def run_cfg(exe, data, cfg, out_len):
 def check_file(exe, data, plaintext, cfg, stats, labels, origin, fingerprint_extra=()):
     """Oracle for one (file, configuration).  Returns failure text or None."""
     r = run_cfg(exe, data, cfg, len(plaintext))
+    if r.timeout and origin == "regression":
+        # the saved input of a repaired hang: three consecutive timeouts (300 s each, the file decodes in well under a
+        # second) mean it is back
+        if run_cfg(exe, data, cfg, len(plaintext)).timeout and run_cfg(exe, data, cfg, len(plaintext)).timeout:
+            return "a conforming file is not decompressed: no exit within 300 s in 3 consecutive runs"
     if r.timeout:
         stats.inconclusive += 1
         return None
@@ -138,6 +143,10 @@ def third_party_items(seed, tier):
         if parts:
             items.append(("concat:" + "+".join(p[0] for p in parts), b"".join(p[1] for p in parts),
                           b"".join(p[2] for p in parts)))
+    # regression input of a repaired finding (F03): thousands of minimal streams whose symbol map spells the block-header
+    # pattern -- a conforming file that used to hang the decompressor with 4 or more workers
+    dense = bz2.compress(b"BCGIOQSTWZ]^acfgiklo", 9) * 5000
+    items.append(("regress:F03-dense", dense, b"BCGIOQSTWZ]^acfgiklo" * 5000))
     for f in sorted(glob.glob(os.path.join(core.REPO, "tests", "*.bz2"))):
         z = open(f, "rb").read()
         info, o = bzk.inspect(z)
@@ -150,7 +159,7 @@ def third_party_items(seed, tier):
 def make_tp_eval(exe):
     def ev(item, stats):
         (desc, z, d), cfg = item
-        bad = check_file(exe, z, d, cfg, stats, set(), "third-party")
+        bad = check_file(exe, z, d, cfg, stats, set(), "regression" if desc.startswith("regress:") else "third-party")
         labels = ["third-party", desc.split("-")[0].split(":")[0], "workers=%s" % cfg["n"]]
         if cfg["sched"]:
             labels.append("serial-schedule")
@@ -169,7 +178,7 @@ def tp_cases(seed, tier):
     out = []
     for it in third_party_items(seed, tier):
         for _ in range(2 if tier == "quick" else 4):
-            out.append((it, {"n": r.choice([1, 2, 4, 16]),
+            out.append((it, {"n": r.choice([4, 8]) if it[0].startswith("regress:") else r.choice([1, 2, 4, 16]),
                              "sched": None if r.random() < 0.6 else "serial:%d:%s:%d:400" % (r.randrange(10**6), r.choice(["pct", "rw"]), r.randrange(1, 4)),
                              "ing": r.choice([None, None, 4, 64, 4096]) if len(it[1]) < 300000 else None,
                              "outg": r.choice([None, None, 1, 64, 4096]) if len(it[2]) < 300000 else None}))
